@@ -126,6 +126,28 @@ fn one<P: Protocol>(run: u64, stream: u64, mode: Mode, steps: u64, focus: &str) 
         }
     }
     sim.deliver_due();
+    if focus == "C09" && !plain_run && run % 2 == 0 {
+        // while the initiators still hold their finished handshake objects (60 s): every handshake datagram captured so far
+        // presented to every node from every node's address (an outsider needs no key for that)
+        for _ in 0..2 {
+            sim.tick();
+        }
+        let inits: Vec<Dgram> = sim.wire.iter().filter(|d| d.bytes.first() == Some(&0xff)).cloned().collect();
+        for d in inits.iter().take(12) {
+            for to in 0..n {
+                for s in 0..n {
+                    if s != to {
+                        sim.inject_later(to, addr_of(s as u16 + 1), d.bytes.clone(), sim.now);
+                    }
+                }
+            }
+            sim.deliver_due();
+        }
+        // the consequences of a handshake object that was disturbed show when its retries are used up
+        for _ in 0..125 {
+            sim.tick();
+        }
+    }
     let mut silenced: Option<(usize, i64)> = None;
     for _ in 0..steps {
         if let Some((j, until)) = silenced {
